@@ -1,4 +1,5 @@
 import NrDaemon.Gen.Limits
+import NrDaemon.Gen.EventData
 /-!
   Model of the limit negotiation: `collector/event_data.go` (`getEventConfig`, the two `UnmarshalJSON`,
   `NewHarvestLimits`), `app.go` (`combineEventConfig`) and `processor.go` (`processLogEventLimits`).
@@ -31,8 +32,10 @@ def getEventConfig (raw : Option Int) (collectorRate : Nat) (defaultLimit : Nat)
 def periodOfMs (ms : Option Nat) : Nat :=
   match ms with
   | none => DefaultReportPeriod
-  | some 0 => DefaultReportPeriod
-  | some m => m * 1000000
+  | some m =>
+    -- zero, and (when the source has the bound) a period too long for a time.Duration, are replaced by the default
+    if m = 0 ∨ (Gen.EventData.maxReportPeriodMs ≠ 0 ∧ m > Gen.EventData.maxReportPeriodMs) then DefaultReportPeriod
+    else m * 1000000
 
 /-- the raw `event_harvest_config` / `span_event_harvest_config` members of a connect reply -/
 structure RawReply where
